@@ -357,6 +357,7 @@ func RunCheck(p *Program, cfg *CheckConfig, seed int) int {
 		lines = append(lines, fmt.Sprintf("VIOLATION property=%s replay=%s obligation=%s status=%s%s", cfg.Property, path, f.Obl.Name, f.Res.Status, suffix))
 		exit = 1
 	}
+	engineErrors = append(engineErrors, p.FrozenErrors...)
 	if total == 0 && len(engineErrors) == 0 {
 		engineErrors = append(engineErrors, "no obligations generated for "+cfg.Property)
 	}
